@@ -6,8 +6,9 @@ Close Scope Q_scope.
 
 Section WithTable.
 Variable t : ranks.
+Variable cu : list N -> N.
 Variable f : fam.
-Notation ok := (fun v => cmp_ok t f v = true).
+Notation ok := (fun v => cmp_ok t cu f v = true).
 
 Lemma all_ok_cons {A} (x : result A) l r :
   all_ok (x :: l) = Ok r -> exists a r', x = Ok a /\ all_ok l = Ok r' /\ r = a :: r'.
@@ -171,8 +172,8 @@ Proof.
     destruct (all_ok (map (hpre t) l0)) eqn:B; try discriminate. inv Ha. inv Hb. f_equal.
     cbn [cmp_ok depth] in *. rewrite forallb_forall in Oa, Ob.
     apply (list_hash (eq_f n) l l0 a a0); auto.
-    + apply Forall_forall. intros x I. destruct (leaf_cmp_ok t f x (Oa x I)). apply KID; auto. lia.
-    + apply Forall_forall. intros y I. destruct (leaf_cmp_ok t f y (Ob y I)). auto.
+    + apply Forall_forall. intros x I. destruct (leaf_cmp_ok t cu f x (Oa x I)). apply KID; auto. lia.
+    + apply Forall_forall. intros y I. destruct (leaf_cmp_ok t cu f y (Ob y I)). auto.
   - (* dict *)
     cbn [hpre] in Ha, Hb. destruct sym; try discriminate. destruct sym0; try discriminate.
     change (map (fun kv : key * pv => (fst kv, (is_missing (snd kv), hpre t (snd kv)))) ents) with (map G ents) in Ha.
@@ -188,7 +189,8 @@ Proof.
       + intros x y. apply eq_f_missing. }
     rewrite SE. reflexivity.
   - (* object *)
-    apply andb_prop in EQ. destruct EQ as [EN EQ]. apply str_eqb_eq in EN. subst name0.
+    apply andb_prop in EQ. destruct EQ as [EN EQ]. apply andb_prop in EN. destruct EN as [EN EU].
+    apply str_eqb_eq in EN. apply N.eqb_eq in EU. subst name0 uid0.
     cbn [hpre] in Ha, Hb.
     change (map (fun kv : key * pv => (fst kv, (is_missing (snd kv), hpre t (snd kv)))) ents) with (map G ents) in Ha.
     change (map (fun kv : key * pv => (fst kv, (is_missing (snd kv), hpre t (snd kv)))) ents0) with (map G ents0) in Hb.
